@@ -89,7 +89,7 @@ def _one_execution(spec, sched, call, pre_grads, model, stats, events, tag):
         stats["reach.vmap_sweep_seen"] = stats.get("reach.vmap_sweep_seen", 0) + 1
     events.append([tag, out["ok"], out["exc"]])
     if not out["ok"]:
-        return world, None, {"clause": "valid_call_raised", "step": tag, "details": out, "key": {"exc": out["exc"]}}
+        return world, None, {"clause": "valid_call_raised", "step": tag, "details": out, "key": {"exc": out["exc"], "msg": (out.get("msg") or "")[:40]}}
     dep = {}
     for n in world.leaf_names:
         a = world.grad_array(n)
@@ -108,6 +108,9 @@ def execute(scn):
     model = Model(spec)
     stats, events, viols, sets = {}, [], [], {}
     eps = 1.1920929e-07 if spec["dtype"] == "float32" else 2.220446049250313e-16
+    from ..world import require_valid
+
+    require_valid(model, call)
     exp = expect_backward(model, call, eps)
     m = exp["m"]
     ncols = exp["J"].shape[1]
